@@ -35,6 +35,11 @@ type Case struct {
 	// Stall: the broker stops reading right before the close plan (client writes block, as on a transport with back-pressure)
 	// and floods the client with FloodCalls end-to-end calls and stray call acks while the plan is blocked on its writes; it
 	// resumes reading StallMs later
+	// RefuseDials: with a cut before the close plan, every redial is refused (the broker stays unreachable): Close still ends the
+	// redialling, nothing dials after it and no goroutine stays behind (seeded change C10/m5)
+	RefuseDials bool `json:"refuse_dials,omitempty"`
+	// Datagram: the connection also has an unreliable (datagram) transport; nothing follows the Disconnect on it either (C10/m6)
+	Datagram   bool `json:"datagram,omitempty"`
 	Stall      bool `json:"stall,omitempty"`
 	FloodCalls int  `json:"flood_calls,omitempty"`
 	StallMs    int  `json:"stall_ms,omitempty"`
@@ -81,6 +86,12 @@ func run(c Case, k *ev.Case) *ev.Failure {
 	w := sim.NewWorld()
 	if c.Redial == "paced" {
 		w.DialDelay = 8 * time.Millisecond
+	}
+	if c.RefuseDials {
+		w.FailDial = func(n int) bool { return n > 1 }
+	}
+	if c.Datagram {
+		w.Unreliable = true
 	}
 	scn.Feed(w.Broker)
 	env, err := scn.Start(w, c.Cfg)
@@ -339,6 +350,14 @@ func run(c Case, k *ev.Case) *ev.Failure {
 			}
 		}
 	}
+	// 2c. nobody dials after Close returned
+	if c.RefuseDials {
+		n0 := len(w.Attempts())
+		time.Sleep(450 * time.Millisecond) // the library's back-off between refused attempts starts at 100 ms and doubles
+		if n1 := len(w.Attempts()); n1 > n0+1 {
+			return ev.Failf("C10.2 redial-after-close", "%d further dial attempts were made in the 450 ms after Conn.Close had returned (broker unreachable since the cut)", n1-n0).WithHistory(hist())
+		}
+	}
 	// 3. notifications at most once per object
 	evs := env.Events.Snapshot()
 	for n, v := range evs.UpClosed {
@@ -457,6 +476,7 @@ func gen(t *rapid.T) Case {
 	}
 	if rapid.IntRange(0, 2).Draw(t, "cut") == 0 {
 		c.CutMsgs = rapid.IntRange(0, 3).Draw(t, "cutmsgs")
+		c.RefuseDials = rapid.IntRange(0, 2).Draw(t, "refusedials") == 0
 	} else if rapid.IntRange(0, 3).Draw(t, "stall") == 0 {
 		c.Stall, c.FloodCalls, c.StallMs = true, rapid.SampledFrom([]int{0, 5, 12, 40}).Draw(t, "flood"), rapid.SampledFrom([]int{10, 30}).Draw(t, "stallms")
 	}
@@ -478,6 +498,7 @@ func gen(t *rapid.T) Case {
 	if rapid.Bool().Draw(t, "repeat") && len(closes) > 0 {
 		closes = append(closes, closes[rapid.IntRange(0, len(closes)-1).Draw(t, "rep")])
 	}
+	c.Datagram = rapid.IntRange(0, 3).Draw(t, "datagram") == 0
 	closes = rapid.Permutation(closes).Draw(t, "order")
 	ng := rapid.IntRange(1, 3).Draw(t, "closers")
 	c.Plan = make(scn.Program, ng)
@@ -510,6 +531,10 @@ func TestRegress(t *testing.T) {
 	for _, cut := range []int{0, 1, 2, 3} {
 		sub.One(t, Case{Cfg: cfg, Prefix: pre, CutMsgs: cut, Plan: scn.Program{{{Kind: "conn-close"}}}, Redial: "paced", Pending: []scn.Op{{Kind: "flush", Obj: "u0", CtxMs: 1500}}})
 		sub.One(t, Case{Cfg: cfg, Prefix: pre, CutMsgs: cut, Plan: scn.Program{nil}, Redial: "paced"})
+	}
+	// seeded change C10/m5: the broker stays unreachable after the cut, Close ends the redialling
+	for _, cut := range []int{0, 2} {
+		sub.One(t, Case{Cfg: cfg, Prefix: pre, CutMsgs: cut, Plan: scn.Program{{{Kind: "conn-close"}}}, Redial: "paced", RefuseDials: true})
 	}
 	// seeded change C10/m3 (a write that passed the disconnect gate completes after the Disconnect): writes of every kind are in
 	// flight, blocked by back-pressure, when Close runs; whatever order they leave in, nothing may follow the Disconnect
